@@ -43,3 +43,47 @@ func vh_C03_L1_decode() {
 		vcover("rejected")
 	}
 }
+
+// C03.L2: an arbitrary byte string (valid checksum, bounded length) delivered through
+// handleInbound to an association in any of its 8 states, with one chunk in flight and
+// one message held for reading: no runtime panic, the read loop is told to stop only by
+// an ABORT chunk, unacknowledged data is released only by an acknowledgement that names
+// it, and data already received stays readable.
+func vh_C03_L2_arbitrary_packet_any_state() {
+	vbound(12)
+	f := vInFlight(1, false)
+	a := f.a
+	cum := a.peerLastTSN()
+	vassert(vDeliver(a, vDataChunk(a, cum+1, 9, false, 2)) == nil, "inbound data")
+	held := a.streams[9]
+	a.setState(uint32(vPick(8)))
+	lens := []int{16, 20}
+	if vtier() > 0 {
+		lens = []int{12, 16, 20, 24, 28}
+	}
+	n := lens[vPick(len(lens))]
+	raw := nondetBytes(n)
+	vBoundSackCounts(raw)
+	vFixChecksum(raw)
+	hasAbort := false
+	for off := packetHeaderSize; off+4 <= n; off += 4 {
+		if raw[off] == byte(ctAbort) {
+			hasAbort = true
+		}
+	}
+	err := a.handleInbound(raw)
+	if err != nil {
+		vassert(hasAbort, "only an ABORT chunk makes the read loop stop")
+	}
+	// the chunk in flight (TSN base+1) is released only if something acknowledged it
+	if f.chunks[0].acked || a.inflightQueue.size() == 0 {
+		vassert(a.cumulativeTSNAckPoint != f.base || f.chunks[0].acked, "in-flight data leaves the queue only through an acknowledgement")
+	}
+	vassert(!vBefore(a.cumulativeTSNAckPoint, f.base), "the cumulative ack point never moves backwards")
+	// data already received stays readable unless this very packet reset the stream or closed the association
+	if held.readErr == nil && a.getState() != closed {
+		vassert(held.getNumBytesInReassemblyQueue() == 2, "a message already received is unaffected")
+	}
+	vassert(vLocksFree(a, held), "no lock is left held by the handlers")
+	vcover("end")
+}
